@@ -208,6 +208,9 @@ type RunObs struct {
 	Finished   bool       `json:"finished"`
 	Segs2      []*SegObs  `json:"segs2,omitempty"` // Case.Twice: the second run on the same compiled runnable
 	Finished2  bool       `json:"finished2,omitempty"`
+	// Repeat: the last call of the driven run ended without writing (it completed or failed), so the checkpoint of
+	// the last interrupt is still in the store; the same call made once more resumes from those bytes again (C05).
+	Repeat    *SegObs    `json:"repeat,omitempty"`
 	RefScheds  []SchedObs `json:"ref_scheds,omitempty"`
 	Scheds     []SchedObs `json:"scheds,omitempty"`
 }
@@ -535,6 +538,22 @@ func Execute(c *Case) *RunObs {
 	obs.Segs, obs.Finished = driveRun(cpID)
 	if eager {
 		obs.Scheds = collectScheds(c)
+	}
+	// Resuming is a function of the stored bytes. The last call did not write: a further call under the same id and
+	// with the same options resumes from the checkpoint of the last interrupt once more and must behave like the
+	// last call did (rerun tables off: a call that did not end interrupted had no aborted attempt).
+	if n := len(obs.Segs); !c.NoID && st != nil && obs.Finished && n >= 2 && obs.Segs[n-1].Sets == 0 && obs.Segs[n-1].Stored &&
+		obs.Segs[n-1].Class != "panic" && obs.Segs[n-1].Class != "hang" {
+		rec.mu.Lock()
+		rec.rerunOn = false
+		rec.mu.Unlock()
+		obs.Repeat = call(ir, rec, st, c.Calls[(n-1)%len(c.Calls)], true, cpID, map[string]any{"resume": strconv.Itoa(n - 1)})
+		rec.mu.Lock()
+		rec.rerunOn = true
+		rec.mu.Unlock()
+		if eager && obs.Repeat.Class != "done" && obs.Repeat.Class != "interrupt" {
+			time.Sleep(3 * time.Millisecond)
+		}
 	}
 	if c.Twice {
 		// the same compiled runnable, another session: the rerun tables count from 1 again
